@@ -11,7 +11,7 @@ use ppv_exact::{d, next_down, next_up, Bf, Dy};
 use proptest::prelude::*;
 use serde::{Deserialize, Serialize};
 
-/// form 0..=8: Poly{form}; 9: PolyN (length = c.len()); 10..=18: Log<Poly{form-10}>
+/// form 0..=8: Poly{form}; 9: PolyN (length = c.len()); 10..=18: Log<Poly{form-10}>; 19: Log<PolyN>
 #[derive(Clone, Debug, Hash, Serialize, Deserialize)]
 pub struct Case {
     pub form: u8,
@@ -29,11 +29,11 @@ fn eval_log_k<P: PolyK>(c: &[f64], v: f64) -> f64 {
 }
 
 pub fn form_name(form: u8) -> &'static str {
-    const N: [&str; 19] = [
+    const N: [&str; 20] = [
         "Poly0", "Poly1", "Poly2", "Poly3", "Poly4", "Poly5", "Poly6", "Poly7", "Poly8", "PolyN", "Log<Poly0>", "Log<Poly1>", "Log<Poly2>",
-        "Log<Poly3>", "Log<Poly4>", "Log<Poly5>", "Log<Poly6>", "Log<Poly7>", "Log<Poly8>",
+        "Log<Poly3>", "Log<Poly4>", "Log<Poly5>", "Log<Poly6>", "Log<Poly7>", "Log<Poly8>", "Log<PolyN>",
     ];
-    N[form as usize % 19]
+    N[form as usize % 20]
 }
 
 static X_SPECIALS: &[f64] = &[
@@ -79,7 +79,7 @@ impl Prop for C01 {
         "C01"
     }
     fn rule(&self) -> String {
-        "case = (form in {Poly0..Poly8, PolyN of length 0..=12, Log<Poly0..Poly8>} uniform, coefficient vector with cancellation patterns (alternating signs, one dominating term, two nearly cancelling terms, single non-zero, all comparable, all zero; exponents up to ±200), argument x (specials ±0 ±1 ±3 ±17 1±ulp fractions; |x| in 2^±3; 2^±60; integers) or v>0 for Log (1±k ulp, e^j, moderate, full range, subnormal, MIN_POSITIVE, MAX)); plus an 'exact class' (integer x, integer coefficients times a common power of two, S(x)<2^53) where the result must equal the exact value. Oracle: exact dyadic Σc_i x^i and S=Σ|c_i||x|^i; |fl-P| <= 4(n+2)·2^-53·S as an exact inequality; Log: p at ln v computed to >300 bits, bound 4(n+2)u·S(l)+ulp(l)·Σi|c_i|l^(i-1). Domain (re-checked exactly, else counted as excluded): every c_i x^i and power of x within 2^±900. Non-trivial: degree>=1, x∉{0,±1} (v≠1), >=2 non-zero coefficients. Distinct by hash of (form, coefficient bits, argument bits).".into()
+        "case = (form in {Poly0..Poly8, PolyN of length 0..=12, Log<Poly0..Poly8>, Log<PolyN>} uniform, coefficient vector with cancellation patterns (alternating signs, one dominating term, two nearly cancelling terms, single non-zero, all comparable, all zero; exponents up to ±200), argument x (specials ±0 ±1 ±3 ±17 1±ulp fractions; |x| in 2^±3; 2^±60; integers) or v>0 for Log (1±k ulp, e^j, moderate, full range, subnormal, MIN_POSITIVE, MAX)); plus an 'exact class' (integer x, integer coefficients times a common power of two, S(x)<2^53) where the result must equal the exact value. Oracle: exact dyadic Σc_i x^i and S=Σ|c_i||x|^i; |fl-P| <= 4(n+2)·2^-53·S as an exact inequality; Log: p at ln v computed to >300 bits, bound 4(n+2)u·S(l)+ulp(l)·Σi|c_i|l^(i-1). Domain (re-checked exactly, else counted as excluded): every c_i x^i and power of x within 2^±900. Non-trivial: degree>=1, x∉{0,±1} (v≠1), >=2 non-zero coefficients. Distinct by hash of (form, coefficient bits, argument bits).".into()
     }
     fn assumptions(&self) -> Vec<String> {
         vec!["Log: the platform ln is within one ulp of the true logarithm (the property grants exactly that)".into()]
@@ -88,10 +88,10 @@ impl Prop for C01 {
         tier.pick(1_000_000, 20_000_000)
     }
     fn strategy(&self, _tier: Tier) -> BoxedStrategy<Case> {
-        let general = (0u8..19, 0usize..=12, any::<u8>()).prop_flat_map(|(form, nlen, wide)| {
+        let general = (0u8..20, 0usize..=12, any::<u8>()).prop_flat_map(|(form, nlen, wide)| {
             let n = match form {
                 0..=8 => form as usize + 1,
-                9 => nlen,
+                9 | 19 => nlen,
                 _ => (form - 10) as usize + 1,
             };
             let emax_c = if wide % 4 == 0 { 200 } else { 30 };
@@ -101,12 +101,12 @@ impl Prop for C01 {
         prop_oneof![4 => general, 1 => exact_class()].boxed()
     }
     fn check(&self, case: &Case, ctx: &mut Ctx) -> Outcome {
-        let form = case.form % 19;
+        let form = case.form % 20;
         let c: Vec<f64> = case.c.iter().map(|b| b.0).collect();
         let x = case.x.0;
         let n = match form {
             0..=8 => form as usize + 1,
-            9 => c.len(),
+            9 | 19 => c.len(),
             _ => (form - 10) as usize + 1,
         };
         if c.len() != n || c.iter().any(|v| !v.is_finite()) || !x.is_finite() {
@@ -185,8 +185,14 @@ impl Prop for C01 {
             if !(v > 0.0) {
                 return Outcome::Skip("Log needs v > 0");
             }
-            let got = lib!(dispatch_deg!(form - 10, eval_log_k(&c, v)));
+            let got = if form == 19 { lib!(Log(PolyN(c.clone())).evaluate(v)) } else { lib!(dispatch_deg!(form - 10, eval_log_k(&c, v))) };
             ctx.comparisons += 1;
+            if n == 0 {
+                if got != 0.0 {
+                    fail!("Log(empty PolyN) evaluated at {} gave {} (must be 0)", hex(v), hex(got));
+                }
+                return Outcome::Pass;
+            }
             let lstar = Bf::from_f64(v).ln();
             let l_up = f64_above(&lstar); // >= |ln v| and >= |fl(ln v)| for any ln within 1 ulp
             let ld = d(l_up);
@@ -229,7 +235,7 @@ impl Prop for C01 {
             (0..13).map(|i| if i % 3 == 0 { 0.0 } else { 2.0f64.powi(i as i32 - 6) }).collect(),
         ];
         let mut k = 0u32;
-        for form in 0u8..19 {
+        for form in 0u8..20 {
             for (vi, cv) in vecs.iter().enumerate() {
                 k += 1;
                 if k % nshards != shard {
@@ -237,7 +243,7 @@ impl Prop for C01 {
                 }
                 let n = match form {
                     0..=8 => form as usize + 1,
-                    9 => 7 + vi,
+                    9 | 19 => 7 + vi,
                     _ => (form - 10) as usize + 1,
                 };
                 for j in 0..points {
